@@ -681,7 +681,7 @@ def cells_of(writes):
 class C06(Property):
     id = "C06"
     title = "draw() leaves the picture in place and the cursor on the line below it"
-    lean_props = ["TIV.C06.Props"]
+    lean_props = ["TIV.C06.Props", "TIV.C06.Compose"]
     driver = DRIVER
     partial = ("that real terminals behave like TIV.Common.Term; that the padded first frame meets the block "
                "contract is a hypothesis discharged by C05 (pad_WB) / C01 for the renders")
